@@ -73,6 +73,11 @@ func Run(cfg Config, res *core.Result) error {
 				res.Skip("even modulus (bigmod)")
 				return nil
 			}
+			if cfg.Moduli == "odd" && !big.NewInt(int64(bh[0].M)).ProbablyPrime(10) && usesInverse(bh) {
+				// compatible/const_int.go: ModInverse "requires n to be prime" (Fermat); C02 speaks of group orders
+				res.Skip("Inv/Div at a composite modulus (constantTime ModInverse is specified for prime moduli)")
+				return nil
+			}
 			scalar(cfg, res, bh, line)
 		case "Int":
 			randInt(cfg, res, bh[0], line)
@@ -100,6 +105,15 @@ func Run(cfg Config, res *core.Result) error {
 }
 
 // ---------------------------------------------------------------- mod.Int over Z_m
+
+func usesInverse(bh []rec) bool {
+	for _, r := range bh {
+		if r.Op == "Inv" || r.Op == "Div" {
+			return true
+		}
+	}
+	return false
+}
 
 func enc1(s kyber.Scalar) (int, error) {
 	b, err := s.MarshalBinary()
